@@ -252,7 +252,7 @@ func sortStrings(s []string) {
 
 type renderings struct {
 	JSON, YAMLBlock, YAMLFlow, TOMLSections, TOMLInline string
-	TOML                                                 bool
+	TOML                                                bool
 }
 
 const validShards = 64
